@@ -161,6 +161,13 @@ func registryCheck(cr *checkRun, regName, label string, fulls []string, safetyOn
 			reg[o] = true
 		}
 	}
+	// a postcondition obligation is named "<unit>#post@<clause>|ret<N>:<return statement text>"; it is claimed under
+	// the name without the statement text as well, so that editing the returned expression does not un-claim the clause
+	for n := range reg {
+		if k := stableOblKey(n); k != n {
+			reg[k] = true
+		}
+	}
 	writing := os.Getenv("GOVC_WRITE_REGISTRY") != ""
 	var all []*Oblig
 	nfun, skipped, generated := 0, 0, 0
@@ -201,7 +208,7 @@ func registryCheck(cr *checkRun, regName, label string, fulls []string, safetyOn
 				continue
 			}
 			generated++
-			if writing || cr.tier == "thorough" || reg[o.Name] || o.Kind == "frame.store" {
+			if writing || cr.tier == "thorough" || reg[o.Name] || reg[stableOblKey(o.Name)] || o.Kind == "frame.store" || (!safetyOnly && isClauseKind(o.Kind)) {
 				all = append(all, o)
 			}
 		}
@@ -227,10 +234,12 @@ func registryCheck(cr *checkRun, regName, label string, fulls []string, safetyOn
 			continue
 		}
 		seen[o.Name] = true
+		seen[stableOblKey(o.Name)] = true
+		claimed := reg[o.Name] || reg[stableOblKey(o.Name)]
 		if o.OK() {
 			ok++
 			names = append(names, o.Name)
-			if reg[o.Name] {
+			if claimed {
 				cr.nObl++
 				cr.nOK++
 				cr.byBackend[o.Res.Solver]++
@@ -241,10 +250,18 @@ func registryCheck(cr *checkRun, regName, label string, fulls []string, safetyOn
 			}
 			continue
 		}
-		if reg[o.Name] || o.Kind == "frame.store" {
+		if claimed || o.Kind == "frame.store" {
 			// frame.store obligations (never write the caller's option struct) are always part of the claim
 			cr.nObl++
 			cr.handleSweepFailure(o)
+		} else if !safetyOnly && !writing && isClauseKind(o.Kind) && o.Res.Status == "sat" {
+			// a contract clause (postcondition, site assertion, invariant, step) that is not in the registry - typically
+			// because the statement it is attached to was edited - and that the solver REFUTES is a violation; one the
+			// solver merely fails to decide stays undecided
+			cr.nObl++
+			cr.handleSweepFailure(o)
+		} else if !safetyOnly && !writing && isClauseKind(o.Kind) {
+			cr.undecided = append(cr.undecided, o.Name+" ("+o.Res.Status+"; contract clause not in the claimed registry)")
 		}
 	}
 	missing := 0
@@ -300,4 +317,28 @@ func (cr *checkRun) handleSweepFailure(o *Oblig) {
 		v.Replay, v.Reproduced, v.Input = rp.path, rp.reproduced, rp.input
 	}
 	cr.viol = append(cr.viol, v)
+}
+
+func isClauseKind(k string) bool {
+	switch k {
+	case "post", "assert", "step", "inv.init", "inv.keep":
+		return true
+	}
+	return false
+}
+
+// stableOblKey drops the return-statement text from a postcondition obligation name.
+func stableOblKey(n string) string {
+	i := strings.Index(n, "#post@")
+	if i < 0 {
+		return n
+	}
+	j := strings.LastIndex(n, "|ret")
+	if j < i {
+		return n
+	}
+	if k := strings.Index(n[j:], ":"); k >= 0 {
+		return n[:j+k]
+	}
+	return n
 }
